@@ -276,6 +276,11 @@ package sync
 
 //@ func (*Syncer).Head(s, ctx, opts)
 //@   props C19
+//@   ghost nh H := result0 of call networkHead #0
+//@   ghost upd bool := result1 of call networkHead #0
+//@   ghost lh H := result0 of call localHead #0
+//@   ghost lherr error := result1 of call localHead #0
 //@   modifies AP_set, AP_val_Hdr, elems(H), EH_Int, headerRange.headers, headerRange.start, ranges.ranges, $now, ghost:storeAppends, ghost:appendedTop, errNonAdjacent.Head, errNonAdjacent.Attempted, header.VerifyError.SoftFailure, ghost:headCalls, ghost:lastTrusted, syncHead.headCh, syncHead.resHead, syncHead.resErr, ghost:storeTailH, ghost:storeLow, Parameters.hash, ghost:pendingAdds
 //@   ensures [C19] non-zero: result1 == nil ==> !result0.IsZero()
 //@   ensures [C19] at-most-two-requests: headCalls <= old(headCalls) + 2
+//@   ensures [C19] returns-the-current-local-head: result1 == nil && called(upd) && upd ==> called(lh) && result0 == lh -- after the head moved, the answer is re-read from the pending set / store (heads learnt meanwhile included): this is what keeps successive answers monotone
